@@ -47,14 +47,24 @@ extern void *mpt_array_append(MPT_STRUCT(array) *arr, size_t len, const void *ba
 	/* need more space or private data */
 	else if (len > (b->_size - (used = b->_used))
 	      || (len && (b->_vptr->get_flags(b) & (MPT_ENUM(BufferShared) | MPT_ENUM(BufferImmutable))))) {
+		MPT_STRUCT(buffer) *next;
+		/* source data may be part of array content */
+		uintptr_t start = (uintptr_t) (b + 1), from = (uintptr_t) base;
+		int own = base && (from >= start) && (from - start < used);
+		int shared = b->_vptr->get_flags(b) & MPT_ENUM(BufferShared);
+		
 		if (len > (SIZE_MAX - used)) {
 			errno = EINVAL;
 			return 0;
 		}
-		if (!(b = b->_vptr->detach(b, used + len))) {
+		if (!(next = b->_vptr->detach(b, used + len))) {
 			return 0;
 		}
-		arr->_buf = b;
+		/* unshared content was moved to new location */
+		if (own && (next != b) && !shared) {
+			base = ((uint8_t *) (next + 1)) + (from - start);
+		}
+		arr->_buf = b = next;
 	}
 	dest = ((uint8_t *)(b + 1)) + used;
 	if (!len) {
